@@ -29,7 +29,7 @@ def exception_classes(tree, what, rep):
         for p in P.Enumerator().function(init):
             for e in p.events('attrstore'):
                 if e[2][1] == ('PARAM', 'self'):
-                    out.setdefault(e[2][2], set()).add(e[3])
+                    out.setdefault(e[2][2], set()).add(P.canon_calls(e[3]))
         return out
     st = stores_of('PartialParseError')
     for attr in ('partial_result', 'last_position'):
